@@ -54,7 +54,26 @@ def run_call(S, ns, n, call_expr, dec, plain, params="", args=()):
     return m, events.run_events(m, args, S, plain=plain), src
 
 
+def translated_gen(ctx):
+    """the three implementations of path.Gen translated from source on every run (harness/gen/gen3_translate.py: symbolic execution with case
+    splits on the recorded spec, the lattice values and the kind of task; fail-closed) and proved equal to Model/Gen3.v"""
+    from gen import gen3_translate
+    from vcommon import paths
+    name = "path/concrete.py, path/spec_interp.py and path/constprop.py are inside the translated fragment (generated model Gen_C05_src.v)"
+    try:
+        body = gen3_translate.generate(paths.REPO)
+    except Exception as e:
+        ctx.obligation(name, False, f"{type(e).__name__}: {e}"[:300])
+        return
+    ctx.obligation(name, True)
+    ok, log = coqrun.compile_lemma_file(ctx.bdir, "Gen_C05_src", body)
+    closed = log.count("Closed under the global context")
+    ctx.obligation("the translated gen methods equal gen_main / gen_spec / gen_constprop for all specs, tasks, operands and keyword lists "
+                   "(src_gen_*_eq), closed under the global context", ok and closed >= 3, log[-600:])
+
+
 def run(ctx):
+    translated_gen(ctx)
     from kirin import ir
     from kirin.dialects import py
     from bloqade.shuttle.dialects import path
